@@ -256,6 +256,9 @@ def c15(r):
     ok2, _ = r.tlc_exhaustive("KVExec.tla", "KVExec_reinit.cfg", workers=8, expect_ok=False)
     if ok2:
         raise Inconclusive("KVExec_reinit.cfg should reproduce a non-idempotent chain initialization")
+    ok3, _ = r.tlc_exhaustive("KVExec.tla", "KVExec_trustprev.cfg", workers=8, expect_ok=False)
+    if ok3:
+        raise Inconclusive("KVExec_trustprev.cfg should show a returned root that is not the root of the state left behind")
     ok, _ = r.tlc_exhaustive("KVExec.tla", "KVExec_final.cfg", workers=8, expect_ok=False)
     if ok:
         raise Inconclusive("KVExec_final.cfg should reproduce the finalize-in-root counterexample")
@@ -305,6 +308,10 @@ def c05(r):
 def submitter(r, prefixes, strict=True):
     r.tlc_exhaustive("MCSubmitter.tla", "Submitter.cfg")
     r.tlc_exhaustive("MCSubmitter.tla", "Submitter_live.cfg", workers=8)
+    # deviation: a never-persisted data watermark seeded from the header watermark at start (must fail)
+    ok, _ = r.tlc_exhaustive("MCSubmitter.tla", "Submitter_seeddata.cfg", expect_ok=False)
+    if ok:
+        raise Inconclusive("Submitter_seeddata.cfg should violate WmSound")
     if r.tier == "thorough":
         r.tlc_exhaustive("MCSubmitter.tla", "Submitter_big.cfg", timeout=1500)
     n = 60 if r.tier == "quick" else 300
